@@ -1,8 +1,8 @@
 """C12 Runtime updates are coherent and reproducible from the dumped configuration.
    spec/config/ConfigStore.tla: live objects (route tables, clusters + host sets, listeners) and the stored
    (effective) configuration, one action per mutator of routers_manager / cluster_manager / xDS endpoint update /
-   listener adapter; invariants Coherent (live == rebuilt from stored), LastUpdateWins, RemovedGone,
-   EndpointsUnion, ErrorsChangeNothing, FrameCondition; seven defect switches that TLC must reject.
+   listener adapter; invariants Coherent (live == rebuilt from stored), LastUpdateWins (incl. the attributes
+   weight/metadata of a host address named again), RemovedGone, EndpointsUnion, ErrorsChangeNothing, FrameCondition; eight defect switches that TLC must reject.
    B1: every operation history enumerated by TLC is replayed into the real managers; after every operation the
        effective configuration is dumped (transferConfig), parsed again and fresh objects are built from it; live
        and fresh answers (MatchRoute on probe requests, host sets, ChooseHost support, listener variant) are
@@ -16,7 +16,7 @@ import vlib
 
 LEVEL = "model_checking"
 FAM = "config"
-DEFECT_CFGS = ["ConfigStore_defect%d.cfg" % i for i in range(1, 8)]
+DEFECT_CFGS = ["ConfigStore_defect%d.cfg" % i for i in range(1, 9)]
 SWAP_DEFECT_CFGS = ["ConfigSwap_defect1.cfg", "ConfigSwap_defect2.cfg"]
 API_OPS = {"routers", "addroute", "rmroutes", "clusterhosts", "listener"}   # operations the admin debug API offers
 
@@ -51,10 +51,12 @@ def run(ctx):
     rng = random.Random(ctx.seed)
     # (cfg, cap on the number of histories replayed; None = all)
     if q:
-        plan = [("ConfigStore_r.cfg", 7000), ("ConfigStore_c.cfg", 9000), ("ConfigStore_cc.cfg", 4000), ("ConfigStore_mix.cfg", 5000)]
+        plan = [("ConfigStore_r.cfg", 6000), ("ConfigStore_c.cfg", 7000), ("ConfigStore_ca.cfg", 5000), ("ConfigStore_cc.cfg", 3500),
+                ("ConfigStore_mix.cfg", 4500)]
         api_cap, rounds, lookers = 1500, 300, 6
     else:
-        plan = [("ConfigStore_r.cfg", None), ("ConfigStore_c.cfg", None), ("ConfigStore_cc.cfg", None), ("ConfigStore_mix.cfg", None),
+        plan = [("ConfigStore_r.cfg", None), ("ConfigStore_c.cfg", None), ("ConfigStore_ca.cfg", None), ("ConfigStore_cc.cfg", None),
+                ("ConfigStore_mix.cfg", None), ("ConfigStore_ca4.cfg", 40000),
                 ("ConfigStore_r4.cfg", None), ("ConfigStore_r5.cfg", 30000), ("ConfigStore_c4.cfg", 40000),
                 ("ConfigStore_cc4.cfg", 30000), ("ConfigStore_mix5.cfg", 40000)]
         api_cap, rounds, lookers = 20000, 3000, 8
@@ -81,7 +83,7 @@ def run(ctx):
         ctx.add_tlc(r)
         sampled = sampled or smp
         nhist += len(lines)
-        if "mix" in cfg:
+        if "mix" in cfg or "_ca" in cfg:     # the families whose operations the admin debug API offers
             mixlines += lines
         name = cfg[len("ConfigStore_"):-len(".cfg")]
         for k, ch in enumerate(chunks(lines, 12000)):
@@ -162,12 +164,13 @@ def run(ctx):
     ctx.cov["distinct_nontrivial"] = nhist
     ctx.cov["exhaustive"] = not sampled
     ctx.cov["rule"] = ("every operation history of length MaxOps that TLC enumerates from ConfigStore.Next (13 operation kinds over "
-                       "2 routers / 5 router configurations incl. invalid and empty ones, 2 clusters x 2 lb types x 4 host sets, "
+                       "2 routers / 5 router configurations incl. invalid and empty ones, 2 clusters x 2 lb types x 4 host sets x 2 host attribute classes (weight+metadata), "
                        "5 locality lists, 1 listener x 2 variants) is replayed into the real router manager, cluster manager, xDS "
                        "converter and listener adapter; after EVERY operation the dumped configuration is re-parsed and fresh objects "
                        "are built from it, at the end the managers are re-created from the dump; a sample is replayed through the "
                        "admin debug API handlers; distinct = histories replayed (quick: VERIF_SEED-chosen subset of each family)")
     ctx.assumptions += ["probe requests: Host in {a.com, zz.com} x path in {/x, /y}; routes are prefix routes to a single cluster",
+                        "host attribute classes a1 = (weight 1, metadata version v1), a2 = (weight 2, version v2), one class per operation argument",
                         "hosts without health checking (all healthy); listener configured with bind_port=false (no socket), variants differ in use_original_dst",
                         "router names carry a per-history suffix because the router manager has no removal operation",
                         "fresh objects are built in-process with the constructors pkg/mosn uses at start-up (NewRouters, NewCluster + host handler, "
